@@ -102,7 +102,9 @@ def _sleep_run(ch, sleepers, switches, batch=False):
             gconfig.set_config_mode(mode)
             sw_done.append((loop.time() - t0, mode))
         except AssertionError:
-            errors.append(("assert-before-any-sleeper", at))
+            # the library's own assert (no sleeper has ever created the shared future) is only legitimate when indeed
+            # nobody has gone to sleep yet
+            errors.append(("assert-before-any-sleeper" if not started else "assert-with-sleepers", at))
             sw_done.append((loop.time() - t0, None))
 
     with loop.running():
@@ -115,6 +117,9 @@ def _sleep_run(ch, sleepers, switches, batch=False):
             why = ("hung", f"{t.get_name()} never finished")
         elif t.exception() is not None:
             why = ("raised", f"{t.get_name()} raised {t.exception()!r}")
+    if why is None and any(e[0] == "assert-with-sleepers" for e in errors):
+        why = ("switch-failed", f"set_config_mode raised its 'no sleeper yet' assertion at {[e[1] for e in errors if e[0] == 'assert-with-sleepers']} "
+                                f"although sleepers had already gone to sleep (started {sorted(started.values())[:3]})")
     if why is None:
         for i, (s, d) in enumerate(sleepers):
             for r in range(ROUNDS):
